@@ -155,6 +155,16 @@ def local_set_names(fn: ast.AST, attrs: Set[str], funcs: Set[str]) -> Set[str]:
     return names
 
 
+def module_set_names(tree: ast.Module) -> Set[str]:
+    out: Set[str] = set()
+    for st in tree.body:
+        tgt = st.targets[0] if isinstance(st, ast.Assign) and len(st.targets) == 1 else (st.target if isinstance(st, ast.AnnAssign) else None)
+        val = getattr(st, "value", None)
+        if isinstance(tgt, ast.Name) and val is not None and is_set_expr(val, out, set(), set()):
+            out.add(tgt.id)
+    return out
+
+
 def body_sensitivity(py, loop: ast.For) -> Tuple[bool, str]:
     """(order sensitive?, reason)."""
     for n in ast.walk(ast.Module(body=list(loop.body), type_ignores=[])):
@@ -327,6 +337,11 @@ def r1_unordered_iteration(ctx, rep):
                 # self.X is judged by what this class (and its bases) assign to X
                 attrs |= {"<self>"} | {"self." + a for a in class_set_attrs(py, cls)}
             locs = local_set_names(fn, attrs, funcs)
+            # module-level tables that are sets (`NAMES = {"a", "b"}`): iterating them inside a function is iterating a set,
+            # unless the function has a local of that name
+            bound = {n.id for n in ast.walk(fn) if isinstance(n, ast.Name) and isinstance(n.ctx, ast.Store)} | \
+                {a.arg for a in fn.args.args + fn.args.kwonlyargs}
+            locs |= {nm for nm in module_set_names(tree) if nm not in bound}
             for st in ast.walk(fn):
                 loops: List[Tuple[ast.AST, ast.AST, str]] = []
                 if isinstance(st, ast.For):
@@ -400,10 +415,22 @@ def r1_unordered_iteration(ctx, rep):
             it = f.iter
             core = it
             sorted_ = False
+            folded = None
             while isinstance(core, N.Filter):
                 if core.name in ("sort", "dictsort"):
                     sorted_ = True
+                    # Jinja's sort compares strings case-insensitively unless told otherwise: elements that differ only in
+                    # capitalisation compare equal and keep the order in which the set yields them
+                    cs = [k.value for k in core.kwargs if k.key == "case_sensitive"]
+                    if not (cs and isinstance(cs[0], N.Const) and cs[0].value is True):
+                        folded = core
                 core = core.node
+            if isinstance(core, N.Getattr) and core.attr in attrs and sorted_ and folded is not None:
+                rep.ob(f"template={tname} for over .{core.attr}", False,
+                       f"{{% for ... in {sym(it)} %}}: `{core.attr}` is a set and `sort` without `case_sensitive=True` is not a total "
+                       f"order (`Zlib` and `zlib` compare equal): their relative order - and the bytes of the page - follow "
+                       f"PYTHONHASHSEED", f"ford/templates/{tname}:{f.lineno}")
+                continue
             if isinstance(core, N.Getattr) and core.attr in attrs:
                 rep.ob(f"template={tname} for over .{core.attr}", sorted_,
                        (f"set-typed attribute `{core.attr}` is sorted before iteration" if sorted_ else
